@@ -34,6 +34,14 @@ func cfgsAcct(tier string) []apix.Cfg {
 	return c
 }
 
+func reopenCfgsBig() []apix.Cfg {
+	c := reopenCfgs()
+	for i := range c {
+		c[i].InitialMmapSize = 1 << 20
+	}
+	return c
+}
+
 func reopenCfgs() []apix.Cfg {
 	return []apix.Cfg{{Freelist: "array"}, {Freelist: "hashmap", NoFreelistSync: true}}
 }
@@ -45,7 +53,13 @@ func lifeScopes(name string, tier string, c10 bool, boundary func(x *apix.Exec, 
 		n, maxTx = 9, 4
 		seeds = []string{"inline", "twolevel", "overflow", "freeruns"}
 	}
-	scs := mk(name, seeds, cfgsAcct(tier), n, 1, lifeAlphabet(2, lifeBodies, reopenCfgs(), maxTx), boundary)
+	cs := cfgsAcct(tier)
+	for i := range cs {
+		// readers and the writer share one goroutine in these explorations: a commit that had to remap while a reader is
+		// open would be the documented single-goroutine deadlock, so the map is made large enough (remap: driver d3, c08-grow)
+		cs[i].InitialMmapSize = 1 << 20
+	}
+	scs := mk(name, seeds, cs, n, 1, lifeAlphabet(2, lifeBodies, reopenCfgsBig(), maxTx), boundary)
 	for _, s := range scs {
 		s.Setup = func(x *apix.Exec) { x.EnableMonitor(c10) }
 	}
